@@ -50,7 +50,8 @@ Case(s, e) ==
     nt |-> IF RangeValid(s, e) THEN RangeHi(s, e) ELSE 0,
     own |-> {tk.own[i] : i \in DOMAIN tk.own}, uown |-> {tk.uown[i] : i \in DOMAIN tk.uown}, uoOk |-> tk.uoOk,
     newc |-> tk.newc, newk |-> tk.newk, stmt |-> tk.stmt, kind |-> TKind(s, e), field |-> e.field, form |-> e.form,
-    deleting |-> NoNew(e), tv |-> tk.tv,
+    deleting |-> NoNew(e), tv |-> tk.tv, docstr |-> tk.docstr,
+    ds1 |-> {tk.ds1[i] : i \in DOMAIN tk.ds1}, ds2 |-> {tk.ds2[i] : i \in DOMAIN tk.ds2},
     elifPre |-> tk.elifPre, elifPost |-> tk.elifPost, soleGen |-> tk.soleGen,
     dependent |-> TKind(s, e) = "Raise" /\ e.field = "exc" /\ Deleting(e) ]
 
